@@ -133,7 +133,7 @@ class C07Monitor(jobsim.Monitor):
         step_items = [fk.items[k] for k in eng.doc["steps"][c["step"]].get("items", range(len(fk.items)))]
         r = _newton_mod.fun_items(step_items, fk.field)
         # absolute floor: rounding noise of the assembled internal forces
-        cands = [float(np.abs(i["b"]).max()) for i in its if i["b"].size] + [float(abs(its[-1]["K"]).max()) * float(np.abs(x).max())]
+        cands = [float(np.abs(i["b"]).max()) for i in its if i["b"].size] + [float(abs(its[-1]["K"]).max()) * (float(np.abs(x).max()) + 1e-4)]
         fscale = max([v for v in cands if np.isfinite(v)] + [0.0])
         ok, rel = close_exact_twin(r, res.fun, atol=1e-11 * fscale + 1e-300)
         if not ok:
